@@ -1,10 +1,54 @@
 (* C19 — Integer and string helpers are independent of the pickle representation. *)
 From Coq Require Import List ZArith NArith Bool.
-From OgRek Require Import Base Value Typeconv.
+From Coq.Strings Require Import Byte.
+From OgRek Require Import Base GoStrconv Value Reader Decoder Typeconv IntFacts.
 Import ListNotations.
+Open Scope N_scope.
 
-(* by result type: AsString accepts exactly string and ByteString, AsBytes exactly Bytes and
-   ByteString, returning the payload unchanged; AsInt64 accepts int64 and in-range *big.Int *)
+(* ---- integers: whichever opcode carries the integer z, AsInt64 of the decoded value is z when z
+        fits in int64 and an error otherwise (as_int64_ok v z) -------------------------------------- *)
+
+(* decodeLong, as the code computes it (shift-and-add, subtract one, flip big.Int.Bytes(),
+   negate), IS the little-endian two's-complement value - for byte strings of every length *)
+Theorem C19_decode_long : forall data, decode_long data = twos_complement data.
+Proof. exact decode_long_spec. Qed.
+Print Assumptions C19_decode_long.
+
+(* INT text and LONG text: for every integer z, of any size *)
+Theorem C19_int_text : forall cfg key insn st z rest,
+  exists v st', run (handler cfg OInt key insn st) (dec_of_Z z ++ x0a :: rest) = (Ok (HOk (push v st')), rest)
+                /\ as_int64_ok v z.
+Proof. exact int_text_form. Qed.
+Print Assumptions C19_int_text.
+
+Theorem C19_long_text : forall cfg key insn st z rest,
+  exists v st', run (handler cfg OLong key insn st) (dec_of_Z z ++ x4c :: x0a :: rest) = (Ok (HOk (push v st')), rest)
+                /\ as_int64_ok v z.
+Proof. exact long_text_form. Qed.
+Print Assumptions C19_long_text.
+
+(* BININT1, BININT2, BININT: every integer each can carry *)
+Theorem C19_binint1 : forall cfg key insn st n rest, n < 256 ->
+  run (handler cfg OBinint1 key insn st) (N2b n :: rest) = (Ok (HOk (push (VInt (Z.of_N n)) st)), rest).
+Proof. exact binint1_form. Qed.
+Theorem C19_binint2 : forall cfg key insn st n rest, n < 65536 ->
+  run (handler cfg OBinint2 key insn st) (le_encode 2 n ++ rest) = (Ok (HOk (push (VInt (Z.of_N n)) st)), rest).
+Proof. exact binint2_form. Qed.
+Theorem C19_binint : forall cfg key insn st z rest, (-2147483648 <= z <= 2147483647)%Z ->
+  run (handler cfg OBinint key insn st) (le_encode 4 (Z.to_N (wrap_u 32 z)) ++ rest)
+  = (Ok (HOk (push (VInt z) st)), rest).
+Proof. exact binint_form. Qed.
+Print Assumptions C19_binint.
+
+(* LONG1 with any payload of up to 255 bytes (the length byte is unsigned) *)
+Theorem C19_long1 : forall cfg key insn st data rest, Nlen data < 256 ->
+  exists st', run (handler cfg OLong1 key insn st) (N2b (Nlen data) :: data ++ rest)
+              = (Ok (HOk (push (VBig (d_next st) (twos_complement data)) st')), rest)
+              /\ as_int64_ok (VBig (d_next st) (twos_complement data)) (twos_complement data).
+Proof. exact long1_form. Qed.
+Print Assumptions C19_long1.
+
+(* ---- helpers, by result type ----------------------------------------------------------------------- *)
 Theorem C19_helpers_by_type :
   forall v,
     (as_string v = match v with VStr s | VBStr s => Some s | _ => None end) /\
@@ -15,3 +59,10 @@ Theorem C19_helpers_by_type :
                   | _ => None end).
 Proof. intros v. repeat split. Qed.
 Print Assumptions C19_helpers_by_type.
+
+(* PyDict mode: int64 and *big.Int of one integer are the same Dict key: C07_equal_is_py_eq_partial
+   and C07_hash_respects_equal_partial (Props/C07.v) cover VInt z / VBig z. *)
+
+(* which payload opcode yields which result type is the content of the decoder model (handler);
+   the payload-preservation half for the nine string opcodes is part of the round-trip work (C03)
+   and is decided by the run: payloads x 9 opcodes x StrictUnicode. *)
